@@ -23,6 +23,7 @@ func (r *result) doCause(ctx context.Context, wg *sync.WaitGroup) {
 	case "close", "cancel":
 		// (a cancelled dial context after the handshake must have no effect; the case then ends by a local close)
 		r.tCause = w.Router.Now()
+		r.closer = e.name
 		e.conn.CloseWithError(quic.ApplicationErrorCode(c.Code), c.Reason)
 		r.causeAt = w.Router.Now()
 	case "trclose":
@@ -48,6 +49,8 @@ func (r *result) doCause(ctx context.Context, wg *sync.WaitGroup) {
 		if skip != "" {
 			r.forgeSkipped = skip
 			// fall back to a local close so that the case still ends
+			r.tCause = w.Router.Now()
+			r.closer = e.name
 			e.conn.CloseWithError(quic.ApplicationErrorCode(c.Code), c.Reason)
 			r.causeAt = w.Router.Now()
 			return
@@ -69,6 +72,11 @@ func (r *result) doCause(ctx context.Context, wg *sync.WaitGroup) {
 func (r *result) replay(n int) {
 	w := r.w
 	to := r.c.By
+	// wait until that endpoint has closed (a forged packet needs half an RTT to get there)
+	if !sim.WaitCtx(r.ep(to).ended, 2*r.rtt+time.Millisecond) {
+		return
+	}
+	time.Sleep(20 * time.Microsecond)
 	var old []byte
 	for i := len(w.Router.Log) - 1; i >= 0; i-- {
 		rec := w.Router.Log[i]
